@@ -219,7 +219,11 @@ func (r *schemaLoader) Resolve(ref *Ref, target interface{}, basePath string) er
 	return r.resolveRef(ref, target, basePath)
 }
 
-func (r *schemaLoader) deref(input interface{}, parentRefs []string, basePath string) error {
+// deref dereferences input in place, following chains of $ref.
+//
+// It returns the resolver and the base path against which the last $ref followed has been read: when a chain of $ref
+// crosses documents, these are the ones of the document holding the last hop, not the ones of the caller.
+func (r *schemaLoader) deref(input interface{}, parentRefs []string, basePath string) (*schemaLoader, string, error) {
 	var ref *Ref
 	switch refable := input.(type) {
 	case *Schema:
@@ -231,33 +235,36 @@ func (r *schemaLoader) deref(input interface{}, parentRefs []string, basePath st
 	case *PathItem:
 		ref = &refable.Ref
 	default:
-		return fmt.Errorf("unsupported type: %T: %w", input, ErrDerefUnsupportedType)
+		return r, basePath, fmt.Errorf("unsupported type: %T: %w", input, ErrDerefUnsupportedType)
 	}
 
 	curRef := ref.String()
 	if curRef == "" {
-		return nil
+		return r, basePath, nil
 	}
 
 	normalizedRef := normalizeRef(ref, basePath)
 	normalizedBasePath := normalizedRef.RemoteURI()
 
 	if r.isCircular(normalizedRef, basePath, parentRefs...) {
-		return nil
+		return r, basePath, nil
 	}
 
+	followed := *ref // resolveRef overwrites input, hence this $ref
 	if err := r.resolveRef(ref, input, basePath); r.shouldStopOnError(err) {
-		return err
+		return r, basePath, err
 	}
 
 	if ref.String() == "" || ref.String() == curRef {
 		// done with rereferencing
-		return nil
+		return r, basePath, nil
 	}
 
 	verifStep("hop", parentRefs, normalizedRef.String(), basePath)
 	parentRefs = append(parentRefs, normalizedRef.String())
-	return r.deref(input, parentRefs, normalizedBasePath)
+
+	// the next $ref has to be read in the document the previous one led to
+	return r.transitiveResolver(basePath, followed).deref(input, parentRefs, normalizedBasePath)
 }
 
 func (r *schemaLoader) shouldStopOnError(err error) bool {
